@@ -578,7 +578,7 @@ class SignatureCarver:
                         uncarved_unallocated_space_indices.append(
                             (0, match_object_index[0])
                         )
-                        last_offset = match_object_index[1]
+                    last_offset = match_object_index[1]
 
                 elif (
                     index == 0
